@@ -48,3 +48,11 @@ impl TabletModeSwitchReader {
   }
 }
 
+// Verification hook. Compiled only with `--cfg ellbur_totalmapper_verif`: lets a
+// simulator hand the reader a file descriptor it owns (e.g. a pipe).
+#[cfg(ellbur_totalmapper_verif)]
+impl TabletModeSwitchReader {
+  pub fn verif_from_fd(fd: RawFd) -> TabletModeSwitchReader {
+    TabletModeSwitchReader { fd }
+  }
+}
